@@ -16,6 +16,13 @@ C2S : every returned tensor is a line validated by WeightTensorTrace.tla (TLC de
       order, the 10-byte records of each (core, slice), the decoded weight sections against WeightOrder!Order of the
       zero-point-corrected channel weights, the double-buffer bound); every history event is validated by
       CacheTrace.tla (hit => digest of reused bytes = digest of a fresh encoding computed with an emptied cache).
+Artefact level (validate_compiled): corpus networks (single conv/dw/fc kinds, chain, wide, pruned, branch, u8i16; every
+      fourth on the two-core U65-512; half with biases that need all 40 bits) are compiled by the real compiler; for every
+      distinct weight-reading NPU operation the SCALE/WEIGHT region, base and length registers of the *output file* are
+      followed (scratch regions back through the stream's DMA operations) to bytes of the flash tensor; TLC
+      (WeightTensorTrace.tla, kind "stripe") decides that they are one 10-byte record per channel of that core with the
+      *source model's* bias, and that the weight bytes decode to the source weights minus zero point in
+      WeightOrder!Order for the block depth / traversal / dilation / bit depth found in the registers.
 """
 import json
 import os
@@ -441,13 +448,480 @@ def negative_controls(run, good):
           {"t": 1, "i": 0, "op": "enc", "acc": "U55_128", "req": req, "epoch": 0, "hit": "full", "cachedW": 1, "freshW": 1, "cachedS": 2, "freshS": 2}]
     res, viol = tlc.validate_traces("CacheTrace", "CacheTrace.cfg", ev, timeout=900)
     got = {tuple(v[:3]) for v in viol}
-    want = {(0, "Coherent", 1), (0, "AssumptionBreached", 1), (1, "ModelDrift", 0)}
+    # (the model follows the extended key: the stale hit of history 0 is also a drift from the predicted miss)
+    want = {(0, "Coherent", 1), (0, "ModelDrift", 1), (1, "ModelDrift", 0)}
     if not want <= got:
         raise MachineryError("cache negative controls not detected: %s" % sorted(got))
     run.cov["negative_controls"] = ["scale records swapped", "bias byte 4 altered", "range offset +8", "overlapping ranges",
                                     "ranges out of stream order", "double-buffer size 0", "decoded weights swapped",
                                     "zero point not applied", "call raised", "cache: stale hit", "cache: hit on a fresh process",
                                     "WeightTensorMC BrokenDoubleBuffer/BrokenCoverage/B=1 violated", "Cache MC: 5 incoherent configurations"]
+
+
+# ------------------------------------------------------------------ artefact level (DESIGN.md 5.8, last sentence)
+# For every NPU convolution-like operation of compiled corpus networks: the bytes the *output file* makes the
+# hardware read (SCALE/WEIGHT region, base and length registers; scratch regions followed back through the DMA
+# operations of the stream to the flash tensor) against the constants of the *source model*.
+ACC_NAME = {"ethos-u55-32": "U55_32", "ethos-u55-64": "U55_64", "ethos-u55-128": "U55_128", "ethos-u55-256": "U55_256",
+            "ethos-u65-256": "U65_256", "ethos-u65-512": "U65_512"}
+SRC_KIND = {3: "conv", 4: "dw", 9: "fc"}          # BuiltinOperator CONV_2D, DEPTHWISE_CONV_2D, FULLY_CONNECTED
+NP_TYPE = {9: "int8", 3: "uint8", 2: "int32", 4: "int64", 7: "int16"}
+TLC_STRIPE_LIMIT = 12000      # weights of one stripe above which the order comparison is done in python
+
+
+def source_constants(model):
+    """name of a constant weight tensor -> what the source model says about the one operator that uses it as weights:
+    kind, OHWI weights, zero points, biases and the real per-channel rescale.  Tensors used by several operators, by
+    other operator kinds or without constant data are left out (the compiled operation is then counted as skipped)."""
+    import numpy as np
+    T = model["tensors"]
+
+    def values(t):
+        dt = NP_TYPE.get(t["type"])
+        raw = model["_buf"](t["buffer"])
+        if dt is None or not raw:
+            return None
+        return np.frombuffer(raw, dtype=dt).astype(np.int64)
+    users = {}
+    for o in model["ops"]:
+        if len(o["inputs"]) > 1 and o["inputs"][1] >= 0:
+            users.setdefault(o["inputs"][1], []).append(o)
+    names = {}
+    for t in T:
+        names[t["name"]] = names.get(t["name"], 0) + 1
+    out = {}
+    for wi, ops in users.items():
+        o = ops[0]
+        kind = SRC_KIND.get(o["code"])
+        wt = T[wi]
+        if len(ops) != 1 or kind is None or names[wt["name"]] != 1 or len(o["inputs"]) < 3 or o["inputs"][2] < 0:
+            continue
+        w, b = values(wt), values(T[o["inputs"][2]])
+        ifm, ofm = T[o["inputs"][0]], T[o["outputs"][0]]
+        if w is None or b is None or not wt["quant"] or not ifm["quant"] or not ofm["quant"]:
+            continue
+        shp = wt["shape"]
+        if kind == "conv" and len(shp) == 4:
+            ohwi = w.reshape(shp)
+        elif kind == "dw" and len(shp) == 4 and shp[0] == 1:
+            ohwi = np.transpose(w.reshape(shp), (3, 1, 2, 0))
+        elif kind == "fc" and len(shp) == 2:
+            ohwi = w.reshape(shp[0], 1, 1, shp[1])
+        else:
+            continue
+        n = ohwi.shape[0]
+        zp = wt["quant"]["zp"] or [0]
+        ws = wt["quant"]["scale"]
+        if len(b) != n or len(zp) not in (1, n) or len(ws) not in (1, n) or not ifm["quant"]["scale"] or not ofm["quant"]["scale"]:
+            continue
+        real = [ifm["quant"]["scale"][0] * (ws[ch] if len(ws) > 1 else ws[0]) / ofm["quant"]["scale"][0] for ch in range(n)]
+        out[wt["name"]] = {"kind": kind, "ohwi": ohwi, "zp": [int(zp[ch] if len(zp) > 1 else zp[0]) for ch in range(n)],
+                           "bias": [int(v) for v in b], "real_scale": real, "bias_name": T[o["inputs"][2]]["name"]}
+    return out
+
+
+def source_name(vela_name):
+    """Vela's name of a constant -> name in the source model (the reader clones with suffix _reshape, the optimiser
+    with _npu); anything else is not an identification and the operation is skipped."""
+    n = vela_name
+    changed = True
+    while changed:
+        changed = False
+        for suf in ("_npu", "_reshape"):
+            if n.endswith(suf):
+                n, changed = n[:-len(suf)], True
+    return n
+
+
+class Provenance:
+    """Which flash bytes a scratch address holds at a point of the stream: the DMA operations seen so far, latest
+    first.  resolve() returns the bytes a read of [a, a+n) in `region` delivers, or None if some byte was never
+    written from (a chain leading to) the flash tensor."""
+
+    def __init__(self, flash):
+        self.flash = flash
+        self.writes = []        # (dst region, dst, n, src region, src)
+
+    def dma(self, regs):
+        self.writes.append((regs["NPU_SET_DMA0_DST_REGION"], regs["NPU_SET_DMA0_DST"], regs["NPU_SET_DMA0_LEN"],
+                            regs["NPU_SET_DMA0_SRC_REGION"], regs["NPU_SET_DMA0_SRC"]))
+
+    def resolve(self, region, a, n, upto=None, depth=0):
+        if n == 0:
+            return b""
+        if region == 0:
+            return bytes(self.flash[a:a + n]) if 0 <= a and a + n <= len(self.flash) else None
+        if depth > 4:
+            return None
+        upto = len(self.writes) if upto is None else upto
+        out = bytearray(n)
+        todo = [(a, a + n)]
+        for k in range(upto - 1, -1, -1):
+            dr, d, ln, sr, sa = self.writes[k]
+            if dr != region or not todo:
+                continue
+            nxt = []
+            for (x, y) in todo:
+                lo, hi = max(x, d), min(y, d + ln)
+                if lo >= hi:
+                    nxt.append((x, y))
+                    continue
+                piece = self.resolve(sr, sa + (lo - d), hi - lo, k, depth + 1)
+                if piece is None:
+                    return None
+                out[lo - a:hi - a] = piece
+                if x < lo:
+                    nxt.append((x, lo))
+                if hi < y:
+                    nxt.append((hi, y))
+            todo = nxt
+        return bytes(out) if not todo else None
+
+
+def decode_isolated(so, sections):
+    """Reference decoder on a list of byte strings, in a forked child (the decoder exits the process on a stream it
+    cannot follow).  Returns a list of lists, None for a section on which the child died."""
+    import multiprocessing as mp
+    ctx = mp.get_context("fork")
+
+    def child(conn, secs):
+        try:
+            mlw = codec.inject(so)
+            for sec in secs:
+                conn.send(mlw.decode(bytearray(sec)) if sec else [])
+        finally:
+            conn.close()
+            os._exit(0)
+
+    def attempt(secs):
+        pc, cc = ctx.Pipe(duplex=False)
+        p = ctx.Process(target=child, args=(cc, secs))
+        p.start()
+        cc.close()
+        got = []
+        try:
+            while len(got) < len(secs) and pc.poll(300):
+                got.append(pc.recv())
+        except EOFError:
+            pass
+        p.join(5)
+        if p.is_alive():
+            p.kill()
+        return got
+    out = []
+    rest = list(sections)
+    while rest:
+        got = attempt(rest)
+        out += got
+        rest = rest[len(got):]
+        if rest:                    # the child died on rest[0]
+            out.append(None)
+            rest = rest[1:]
+    return out
+
+
+def compiled_jobs(tier, sd):
+    from .. import corpus
+    rng = random.Random(sd * 31 + 5)
+    n = 50 if tier == "quick" else 800
+    jobs = []
+    kinds = ["conv", "conv_s2", "conv_valid", "conv1x1", "dw", "dw_s2", "fc", "int16conv", "dilconv", "split", "pad",
+             "mean", "tconv"]          # the last two are rewritten by the optimiser: counted as skipped
+    for i, k in enumerate(kinds if tier == "quick" else kinds * 4):
+        label, net = corpus.f_single(rng, rng.randrange(1 << 20), k)
+        jobs.append({"id": "s%d" % i, "family": label, "net": net, "opts": corpus.config_point(rng)})
+    jobs += corpus.draw(n - len(jobs), sd * 13 + 1, families=["wide", "chain", "pruned", "branch", "wide", "u8i16"],
+                        dedicated_bias=0.5)
+    # biases that need all five bytes of the 40-bit field (the corpus draws them from -1000..1000)
+    for k, j in enumerate(jobs):
+        if k % 2 == 0:
+            j["net"] = json.loads(json.dumps(j["net"]))
+            for o in j["net"]["ops"]:
+                if o["op"] in ("CONV_2D", "DEPTHWISE_CONV_2D", "FULLY_CONNECTED") and len(o["inputs"]) > 2:
+                    bt = j["net"]["tensors"][o["inputs"][2]]
+                    if isinstance(bt.get("data"), dict) and "rng" in bt["data"]:
+                        big = (1 << 38) if bt["type"] == "INT64" else (1 << 30)
+                        bt["data"] = dict(bt["data"], lo=-big, hi=big)
+    # the two-core accelerator and small staging areas (buffered, depth-sliced weights) must be present
+    for k, j in enumerate(jobs):
+        if k % 4 == 1:
+            j["opts"] = dict(j["opts"], accel="ethos-u65-512")
+            for key in ("config", "system_config", "memory_mode"):
+                j["opts"].pop(key, None)
+    return jobs
+
+
+def stripes_of_job(j, x, counts):
+    """Observation dicts (without decoded weights) of the distinct weight-reading operations of one compiled job."""
+    import numpy as np
+    from .. import artefact, npuhw, streams
+    if "extract" not in x:
+        raise MachineryError("no logical command list for %s: %s" % (j["family"], x.get("extract_error")))
+    src = source_constants(artefact.parse_model(x["in_bytes"]))
+    _, ss = streams.analyse(x["out_bytes"], j["opts"]["accel"])
+    lgs = x["extract"]
+    if len(lgs) != len(ss):
+        raise MachineryError("pairing of subgraphs failed for " + j["family"])
+    obs, seen = [], set()
+    for s, lg in zip(ss, lgs):
+        if len(s["ops"]) != len(lg["cmds"]):
+            raise MachineryError("pairing: %d operations in the stream, %d high-level commands (%s)" % (
+                len(s["ops"]), len(lg["cmds"]), j["family"]))
+        accel = s["accel"] or j["opts"]["accel"]
+        nc = npuhw.ACCEL[accel][1]
+        prov = Provenance(s["eo"]["flash"])
+        for o, c in zip(s["ops"], lg["cmds"]):
+            regs = o["regs"]
+            if (o["kind"] == "dma") != (c["type"] == "dma"):
+                raise MachineryError("pairing: operation %d is %s but the command is %s" % (o["index"], o["kind"], c["type"]))
+            if o["kind"] == "dma":
+                prov.dma(regs)
+                continue
+            w = c.get("weights")
+            if o["kind"] not in ("conv", "dw") or not w:
+                continue
+            sc = src.get(source_name(w.get("wname", "")))
+            g = npuhw.geometry(o["kind"], regs)
+            c0, c1 = w["depth"]
+            why = None
+            if sc is None or c.get("orig") not in ("Conv2DBias", "Conv2D", "DepthwiseConv2DBias", "FullyConnected"):
+                why = "not_a_source_conv_dw_fc"
+            else:
+                n_all, kh, kw, idp = sc["ohwi"].shape
+                want_shape = {"conv": [kh, kw, idp, n_all], "dw": [kh, kw, 1, n_all], "fc": [idp, n_all]}[sc["kind"]]
+                if list(w.get("wshape", [])) not in (want_shape, [1, 1] + want_shape if sc["kind"] == "fc" else want_shape):
+                    why = "weights_rewritten"
+                elif (o["kind"] == "dw") != (sc["kind"] == "dw"):
+                    why = "operator_kind_rewritten"
+                elif (g["kh"] - 1) != (kh - 1) * g["dy"] or (g["kw"] - 1) != (kw - 1) * g["dx"] or g["od"] != c1 - c0 \
+                        or not (0 <= c0 < c1 <= n_all) or (sc["kind"] != "dw" and g["id"] != idp):
+                    why = "geometry_differs_from_source"
+            if why is None:
+                cfg0 = {"od": 1, "kh": kh, "kw": kw, "id": idp, "acc": ACC_NAME[accel], "oblk": 1,
+                        "trav": "dw" if o["kind"] == "dw" else ("part" if g["part_kernel"] else "depth"),
+                        "bits": g["ifm_bits"], "dily": g["dy"], "dilx": g["dx"]}
+                if g["ifm_bits"] not in (8, 16) or g["bd"] < nc:
+                    why = "unsupported_precision_or_block"
+                else:
+                    for core in range(nc):
+                        cnt = len(range(c0 + core, c1, nc))
+                        if cnt and not weight_order.valid(dict(cfg0, od=cnt, oblk=(g["bd"] + nc - 1 - core) // nc)):
+                            why = "block_depth_not_in_model"
+            if why:
+                counts["skipped"][why] = counts["skipped"].get(why, 0) + 1
+                continue
+            cores = []
+            for core in range(nc):
+                sfx = "" if core == 0 else "1"
+                wl, sl = regs.get("NPU_SET_WEIGHT%s_LENGTH" % sfx, 0), regs.get("NPU_SET_SCALE%s_LENGTH" % sfx, 0)
+                wb = prov.resolve(regs["NPU_SET_WEIGHT_REGION"], regs.get("NPU_SET_WEIGHT%s_BASE" % sfx, 0), wl)
+                sb = prov.resolve(regs["NPU_SET_SCALE_REGION"], regs.get("NPU_SET_SCALE%s_BASE" % sfx, 0), sl)
+                cores.append({"core": core, "defined": wb is not None and sb is not None, "slen": int(sl), "wlen": int(wl),
+                              "sbytes": list(sb or b""), "_wbytes": wb or b""})
+            key = (lg["name"], w["wname"], c0, c1, json.dumps([(cr["slen"], cr["wlen"], cr["sbytes"][:40], hash(cr["_wbytes"]))
+                                                               for cr in cores]), g["bd"], g["part_kernel"], g["ifm_bits"])
+            if key in seen:
+                continue            # the same sections read again by another stripe of the operation
+            seen.add(key)
+            sub = sc["ohwi"][c0:c1]
+            ev = {"kind": "stripe", "n": c1 - c0, "nc": nc, "B": g["bd"], "kh": kh, "kw": kw, "id": idp,
+                  "acc": ACC_NAME[accel], "trav": cfg0["trav"], "bits": g["ifm_bits"], "dily": g["dy"], "dilx": g["dx"],
+                  "flip": False, "wraw": sub.reshape(-1).tolist(), "zp": sc["zp"][c0:c1],
+                  "bias": [limbs40(v) for v in sc["bias"][c0:c1]], "cores": cores,
+                  "_real": sc["real_scale"][c0:c1], "_c0": c0, "_op": "%s %s[%d:%d]" % (sc["kind"], source_name(w["wname"]), c0, c1),
+                  "_buffered": regs["NPU_SET_WEIGHT_REGION"] != 0, "_vol": sub}
+            obs.append(ev)
+    return obs
+
+
+def limbs40(v):
+    v &= (1 << 40) - 1
+    return [v & 0xFFFF, (v >> 16) & 0xFFFF, v >> 32]
+
+
+def stripe_channels(ev, core):
+    return list(range(core, ev["n"], ev["nc"]))
+
+
+def python_clauses(ev):
+    """Clauses decided in python: the multiplier plausibility (float derivation, see C09) for every stripe, and for
+    stripes too large for TLC the scale/weight sections with harness/weight_order.py (cross-checked against
+    WeightOrder.tla by TLC in C07)."""
+    import numpy as np
+    bad = []
+    for cr in ev["cores"]:
+        if not cr["defined"]:
+            continue
+        ch = stripe_channels(ev, cr["core"])
+        sb = cr["sbytes"]
+        if len(sb) >= 10 * len(ch):
+            off = [k for k, c_ in enumerate(ch) if not _plausible(sb[10 * k + 5:10 * k + 10], ev["_real"][c_])]
+            if off:
+                bad.append(("ScaleOfChannel", cr["core"], "channels %s" % [ev["_c0"] + ch[k] for k in off[:6]]))
+    return bad
+
+
+def _plausible(rec5, real):
+    m = rec5[0] | (rec5[1] << 8) | (rec5[2] << 16) | (rec5[3] << 24)
+    sh = rec5[4] & 63
+    got = m / float(1 << sh)
+    return abs(got - real) <= 1e-3 * abs(real)
+
+
+def python_sections(ev):
+    import numpy as np
+    bad = []
+    for cr in ev["cores"]:
+        if not cr["defined"]:
+            bad.append(("SectionBytesDefined", cr["core"], ""))
+            continue
+        ch = stripe_channels(ev, cr["core"])
+        sb = cr["sbytes"]
+        ok = cr["slen"] == -(-10 * len(ch) // 16) * 16 and len(sb) == cr["slen"]
+        for k, c_ in enumerate(ch):
+            if not ok:
+                break
+            b = ev["bias"][c_]
+            ok = sb[10 * k:10 * k + 5] == [b[0] % 256, b[0] // 256, b[1] % 256, b[1] // 256, b[2] % 256] and sb[10 * k + 9] < 64
+        if not ok:
+            bad.append(("ScaleSection", cr["core"], "bytes=%s" % sb[:20]))
+        if not ch:
+            if cr["wlen"]:
+                bad.append(("WeightSection", cr["core"], "weights for a core without channels"))
+            continue
+        cfg = {"od": len(ch), "kh": ev["kh"], "kw": ev["kw"], "id": ev["id"], "acc": ev["acc"], "trav": ev["trav"],
+               "bits": ev["bits"], "dily": ev["dily"], "dilx": ev["dilx"], "oblk": (ev["B"] + ev["nc"] - 1 - cr["core"]) // ev["nc"]}
+        vol = ev["_vol"][ch] - np.asarray(ev["zp"], dtype=np.int64)[ch].reshape(-1, 1, 1, 1)
+        exp = weight_order.reordered(cfg, vol.reshape(-1))
+        d = np.asarray(cr["wdec"] if cr["wdec"] is not None else [], dtype=np.int64)
+        if cr["wdec"] is None or cr["wlen"] <= 0 or cr["wlen"] % 16 or d.size < exp.size \
+                or not (d[:exp.size] == exp).all() or d[exp.size:].any():
+            bad.append(("WeightSection", cr["core"], "decoded %d weights, expected %d" % (d.size, exp.size)))
+    return bad
+
+
+def validate_compiled(run, tier, jobs=None):
+    """Artefact level: scale and weight bytes read by every compiled CONV_2D / DEPTHWISE_CONV_2D / FULLY_CONNECTED
+    operation of corpus networks against the source model.  (jobs: replay of one compilation)"""
+    import time
+    from .. import logical, vela_run
+    t0 = time.time()
+    sd = seed()
+    col = Collector(run)
+    so = private_build(run)
+    replaying = jobs is not None
+    jobs = jobs or compiled_jobs(tier, sd)
+    rs = vela_run.compile_many(jobs, extractor=logical.extract)
+    counts = {"skipped": {}, "compiled": 0, "failed_to_compile": 0}
+    tlc_events, meta, big = [], {}, []
+    classes = {}
+    n_checked = n_buffered = n_two = 0
+    for j, x in zip(jobs, rs):
+        if x["rc"] != 0 or "out_bytes" not in x:
+            counts["failed_to_compile"] += 1      # C13's business
+            continue
+        counts["compiled"] += 1
+        obs = stripes_of_job(j, x, counts)
+        secs = [cr["_wbytes"] for ev in obs for cr in ev["cores"]]
+        decs = decode_isolated(so, secs)
+        k = 0
+        for ev in obs:
+            for cr in ev["cores"]:
+                cr["wdec"] = decs[k]
+                k += 1
+                del cr["_wbytes"]
+            ident = "%s|%s,%s" % (ev["_op"], j["family"].split(":")[0], ev["acc"])
+            replay = {"compiled": {"net": j["net"], "opts": j["opts"], "family": j["family"]}, "op": ev["_op"]}
+            n_checked += 1
+            cls = "%s/%s/%dbit/%s%s%s" % (ev["_op"].split(" ")[0], ev["trav"], ev["bits"], "2cores" if ev["nc"] == 2 else "1core",
+                                        "/buffered" if ev["_buffered"] else "", "/dilated" if ev["dily"] * ev["dilx"] > 1 else "")
+            classes[cls] = classes.get(cls, 0) + 1
+            n_buffered += ev["_buffered"]
+            n_two += ev["nc"] == 2
+            run.evaluated()
+            run.nontrivial(("compiled", ev["_op"].split(" ")[0], ev["acc"], ev["trav"], ev["bits"], ev["B"], ev["n"], ev["kh"],
+                            ev["kw"], ev["id"], ev["_buffered"]))
+            for clause, core, detail in python_clauses(ev):
+                col.add(clause, "compiled|" + ident, "core %d %s" % (core, detail), replay)
+            undec = [cr["core"] for cr in ev["cores"] if cr["wdec"] is None]
+            for core in undec:
+                col.add("WeightSection", "compiled|" + ident, "core %d: the reference decoder died on the bytes at "
+                        "WEIGHT%s_BASE" % (core, "1" if core else ""), replay)
+            if undec:
+                continue
+            if len(ev["wraw"]) > TLC_STRIPE_LIMIT:
+                big.append(ev)
+                for clause, core, detail in python_sections(ev):
+                    col.add(clause, "compiled|" + ident, "core %d %s (compared in python)" % (core, detail), replay)
+            else:
+                t = len(tlc_events)
+                meta[t] = (ident, replay)
+                tlc_events.append(dict({k_: v for k_, v in ev.items() if not k_.startswith("_")}, t=t))
+    if n_checked == 0:
+        raise MachineryError("artefact level: no compiled operation could be checked (%s)" % counts)
+    if not replaying and (n_buffered == 0 or n_two == 0 or not any(k.startswith("dw/") for k in classes)
+                          or not any(k.startswith("fc/") for k in classes) or not counts["skipped"]):
+        raise MachineryError("vacuity: artefact level misses a class (buffered, two cores, depthwise, FC, skipped "
+                             "rewrites): %s %s" % (classes, counts))
+    n_tlc = len(tlc_events)
+    if tlc_events:
+        tlc_viol = validate_layout(run, "compiled operations" if not replaying else "replay",
+                                   tlc_events, 6 if tier == "quick" else 12)
+        for v in tlc_viol:
+            t, clause = v[0], v[1]
+            ident, replay = meta[t]
+            if clause == "MalformedObservation":
+                raise MachineryError("artefact level: malformed stripe record for " + ident)
+            cr = tlc_events[t]["cores"][v[2]]
+            col.add(clause, "compiled|" + ident, "core %d: SCALE length %d bytes=%s; WEIGHT length %d, %d weights decoded" % (
+                v[2], cr["slen"], cr["sbytes"][:20], cr["wlen"], len(cr["wdec"] or [])), replay)
+    if tlc_events and not replaying:
+        # negative controls on a real record that TLC accepted
+        import copy
+        rejected = {v[0] for v in tlc_viol}
+        base = next((e for e in tlc_events if e["t"] not in rejected and e["n"] >= 2 and e["cores"][0]["wdec"]
+                     and len(set(e["cores"][0]["wdec"])) > 2 and len(e["cores"][0]["sbytes"]) >= 10), None)
+        if base is None:
+            if not run.violations:
+                raise MachineryError("artefact level: no accepted record for the negative controls")
+            tlc_events = []
+    if tlc_events and not replaying:
+        base = copy.deepcopy(base)
+        bad = []
+        for clause, f in (("ScaleSection", lambda e: e["cores"][0]["sbytes"].__setitem__(4, (e["cores"][0]["sbytes"][4] + 1) % 256)),
+                          ("ScaleSection", lambda e: e["cores"][0].__setitem__("slen", e["cores"][0]["slen"] + 16)),
+                          ("WeightSection", lambda e: e["cores"][0]["wdec"].reverse()),
+                          ("WeightSection", lambda e: e["cores"][0]["wdec"].__setitem__(0, e["cores"][0]["wdec"][0] + 1)),
+                          ("WeightSection", lambda e: e.__setitem__("zp", [z + 1 for z in e["zp"]])),
+                          ("SectionBytesDefined", lambda e: e["cores"][0].__setitem__("defined", False))):
+            e = copy.deepcopy(base)
+            f(e)
+            e["t"] = len(bad)
+            bad.append((e, clause))
+        _, viol = tlc.validate_traces("WeightTensorTrace", "WeightTensorTrace.cfg", [b for b, _ in bad], timeout=900)
+        got = {(v[0], v[1]) for v in viol}
+        for b, clause in bad:
+            if (b["t"], clause) not in got:
+                raise MachineryError("artefact level: negative control %d (%s) not detected: %s" % (b["t"], clause, sorted(got)))
+    run.cov["compiled_networks"] = counts["compiled"]
+    run.cov["compiled_ops_checked"] = n_checked
+    run.cov["compiled_ops_decided_by_tlc"] = n_tlc
+    run.cov["compiled_ops_compared_in_python"] = len(big)
+    run.cov["skipped"] = counts["skipped"]
+    run.cov["buffered_weight_ops"] = n_buffered
+    run.cov["two_core_ops"] = n_two
+    run.cov["compiled_op_classes"] = classes
+    run.cov["compiled_wall_s"] = round(time.time() - t0, 1)
+    run.assumptions += [
+        "artefact level: which source channels a stripe computes (weight box) and which source tensor its weights are "
+        "(tensor name) come from the high-level command list observed in the compiling process (harness/logical.py); "
+        "regions, addresses, lengths, block depth, traversal, dilation, bit depth and all bytes come from the output file",
+        "artefact level: multipliers are only checked for plausibility (1e-3 of ifm*w/ofm scale of the source model) in "
+        "python; TLC decides record count, the 5 bias bytes of every record, the shift range and the decoded weight "
+        "order; stripes above %d weights are compared in python with harness/weight_order.py" % TLC_STRIPE_LIMIT,
+        "artefact level: only CONV_2D / DEPTHWISE_CONV_2D / FULLY_CONNECTED whose weight tensor is found by name and "
+        "unchanged in shape are checked; rewritten operators (MEAN, resize, transpose conv, strided rewrites) are counted "
+        "as skipped"]
 
 
 # ------------------------------------------------------------------ main
@@ -548,6 +1022,9 @@ def _main(run, tier):
     judge_layout(run, col, "scales-only tensors of cache histories", layouts, lmeta, 4)
     run.cov["histories"] = len(hjobs)
 
+    # ---- artefact level: compiled corpus networks against their source models
+    validate_compiled(run, tier)
+
     th.join()
     if "err" in mc_out:
         raise mc_out["err"]
@@ -593,7 +1070,10 @@ def replay(path):
     hits = []
     run.violation = lambda key, what, obj: hits.append(key)
     col = Collector(run)
-    if "spec" in rp:
+    if "compiled" in rp:
+        j = dict(rp["compiled"], id=0)
+        validate_compiled(run, "quick", [j])
+    elif "spec" in rp:
         jobs = [{"id": 0, "kind": "layout", "spec": rp["spec"]}]
         r = run_jobs(run, so, jobs, 1)[0]
         if "died" in r:
